@@ -30,12 +30,13 @@ func workDir() string {
 }
 
 type Run struct {
-	Argv    []string          `json:"argv"`
-	Stdin   string            `json:"stdin"`
-	Files   map[string]string `json:"files,omitempty"` // name -> content, created in a private dir; "@name" in argv is replaced by the path
-	Env     []string          `json:"env,omitempty"`
-	OutArg  string            `json:"out_arg,omitempty"`  // name of a file (in the private dir) the command writes; content returned in Result.OutFile
-	NoStdin bool              `json:"no_stdin,omitempty"` // standard input is /dev/null (a character device) instead of a pipe
+	Argv      []string          `json:"argv"`
+	Stdin     string            `json:"stdin"`
+	Files     map[string]string `json:"files,omitempty"` // name -> content, created in a private dir; "@name" in argv is replaced by the path
+	Env       []string          `json:"env,omitempty"`
+	OutArg    string            `json:"out_arg,omitempty"`    // name of a file (in the private dir) the command writes; content returned in Result.OutFile
+	NoStdin   bool              `json:"no_stdin,omitempty"`   // standard input is /dev/null (a character device) instead of a pipe
+	StdinFile bool              `json:"stdin_file,omitempty"` // standard input is a regular file holding Stdin (`crd ... < file`)
 }
 
 type Result struct {
@@ -88,7 +89,27 @@ func (r Run) exec1(timeout time.Duration) Result {
 		}
 	}
 	cmd := exec.Command(crdBin(), argv...)
-	if !r.NoStdin {
+	switch {
+	case r.NoStdin:
+	case r.StdinFile:
+		if dir == "" {
+			dir = filepath.Join(workDir(), fmt.Sprintf("run-%d-%d", os.Getpid(), runSeq.Add(1)))
+			if err := os.MkdirAll(dir, 0o755); err != nil {
+				panic(err)
+			}
+			defer os.RemoveAll(dir)
+		}
+		p := filepath.Join(dir, ".stdin")
+		if err := os.WriteFile(p, []byte(r.Stdin), 0o644); err != nil {
+			panic(err)
+		}
+		f, err := os.Open(p)
+		if err != nil {
+			panic(err)
+		}
+		defer f.Close()
+		cmd.Stdin = f
+	default:
 		cmd.Stdin = strings.NewReader(r.Stdin)
 	}
 	var out, errb bytes.Buffer
